@@ -218,8 +218,8 @@ class Attempts(object):
             if r is None:
                 continue
             if isinstance(r, (list, tuple)):
-                out.extend(x for x in r if x is not None)
-            else:
+                out.extend(x for x in r if isinstance(x, RuleResult))
+            elif isinstance(r, RuleResult):
                 out.append(r)
         return out
 
